@@ -1312,7 +1312,20 @@ impl ThreadInternal for Thread {
                     }
                     Ok(result).into()
                 }
-                Some(fut) => Pin::new(fut).poll(cx),
+                Some(fut) => {
+                    let result = ready!(Pin::new(fut).poll(cx))?;
+                    // The action was suspended and has now finished through `Execute`, leave the
+                    // scope that was entered above in the same way as when it finishes directly
+                    let mut context = self.context();
+                    {
+                        let mut context = context.borrow_mut();
+                        context.stack.clear();
+                    }
+                    if let Ok(mut context) = context.exit_scope() {
+                        context.stack.pop();
+                    }
+                    Ok(result).into()
+                }
             }
         })
         .await
